@@ -56,6 +56,9 @@ type Item struct {
 	Creates []RaceSec `json:"cr,omitempty"`
 	// NoFooter: the closing separator of the race report is missing (malformed).
 	NoFooter bool `json:"nofooter,omitempty"`
+	// Damaged: the item was malformed on purpose (gen.Malform); text that
+	// follows it may then legitimately be read as its continuation.
+	Damaged bool `json:"damaged,omitempty"`
 }
 
 // Doc is a whole stream.
@@ -98,6 +101,7 @@ type DumpInfo struct {
 	// NoFooter: a race report whose closing separator is missing (malformed);
 	// like a goroutine dump it then swallows one following blank line.
 	NoFooter bool
+	Damaged  bool
 }
 
 // Stream is a rendered Doc.
@@ -127,7 +131,7 @@ func Render(d *Doc) *Stream {
 			if eol == "" {
 				eol = "\n"
 			}
-			di := DumpInfo{Item: ii, Start: b.Len(), FirstLine: len(s.Lines), Indent: it.Indent}
+			di := DumpInfo{Item: ii, Start: b.Len(), FirstLine: len(s.Lines), Indent: it.Indent, Damaged: it.Damaged}
 			var lines []string
 			var gors []int
 			for gi := range it.Gors {
@@ -197,7 +201,7 @@ func Render(d *Doc) *Stream {
 			if eol == "" {
 				eol = "\n"
 			}
-			di := DumpInfo{Item: ii, Race: true, Start: b.Len(), FirstLine: len(s.Lines), NoFooter: it.NoFooter}
+			di := DumpInfo{Item: ii, Race: true, Start: b.Len(), FirstLine: len(s.Lines), NoFooter: it.NoFooter, Damaged: it.Damaged}
 			add("=================="+eol, Dump, ii, -1, false)
 			add("WARNING: DATA RACE"+eol, Dump, ii, -1, false)
 			di.OpEnd = make([]int, len(it.Ops))
